@@ -155,6 +155,7 @@ def impl_main(payload):
     from bingo.symbolic_regression.agraph.agraph import AGraph
     from bingo.symbolic_regression.agraph import string_parsing as spm
     from bingo.symbolic_regression.agraph.string_generation import get_formatted_string
+    from bingo.symbolic_regression.agraph.simplification_backend import simplification_backend as sb
     warnings.simplefilter("ignore")
     np.seterr(all="ignore")
     rng = random.Random(payload["seed"])
@@ -192,6 +193,36 @@ def impl_main(payload):
         s2 = g.get_formatted_string("sympy")
         strings.append(s2)
         ref = g.evaluate_equation_at(X)
+        # points at which the value is well conditioned: an independent evaluation in double and in extended precision agree.
+        # Printing drops parentheses that are redundant over the reals (a + (b - c) is printed a + b - (c)), so the parsed
+        # equation may associate differently; where rounding decides the value (1e16 + x - 1e16) no comparison is meaningful
+        def conditioned(stack_, consts_):
+            red = sb.reduce_stack(np.asarray(stack_, dtype=int))
+            k, rows = 0, []
+            for r_ in np.asarray(red).tolist():
+                if r_[0] == 1:
+                    rows.append([1, k, k])
+                    k += 1
+                else:
+                    rows.append([int(v) for v in r_])
+            cvals = [float(v) for v in np.atleast_1d(consts_)]
+            w = np.zeros(X.shape[0], dtype=bool)
+            for j in range(X.shape[0]):
+                try:
+                    with np.errstate(all="ignore"):
+                        v64 = float(c01.ref_eval(rows, X[j], cvals))
+                        v80 = c01.ref_eval(rows, X[j], cvals, dtype=np.longdouble)
+                    w[j] = bool(np.isfinite(v64) and np.isfinite(v80) and abs(np.longdouble(v64) - v80) <= 1e-11 * (1 + abs(v80)))
+                except Exception:  # noqa
+                    w[j] = False
+            return w
+        well = conditioned(st, g.constants)
+        try:     # ... and the same for the association the parser gives the string
+            hp = AGraph(equation=s2, use_simplification=False)
+            well &= conditioned(hp.command_array, hp.constants)
+        except Exception:  # noqa
+            pass
+        stats["ill_conditioned_points"] = stats.get("ill_conditioned_points", 0) + int((~well).sum())
         for simp in (False, True):
             try:
                 h = AGraph(equation=s2, use_simplification=simp)
@@ -204,12 +235,10 @@ def impl_main(payload):
             if np.array_equal(refv, gotv, equal_nan=True):
                 stats["roundtrip_exact"] += 1
                 continue
-            if simp:
-                # simplification preserves values where the original is finite (C03); elsewhere anything may happen
-                sel = np.isfinite(refv)
-            else:
-                sel = np.ones(len(refv), dtype=bool)
-            if gotv.shape == refv.shape and np.allclose(refv[sel], gotv[sel], rtol=1e-9, atol=0.0, equal_nan=True):
+            # compared where the reference is finite and well conditioned (simplification may in addition define points where
+            # the original is undefined: C03); real-number equality, so a tolerance
+            sel = np.isfinite(refv) & well
+            if gotv.shape == refv.shape and np.allclose(refv[sel], gotv[sel], rtol=1e-8, atol=1e-8, equal_nan=True):
                 continue
             del accepted[:]
             literals = len(spm.eq_string_to_command_array_and_constants(s2)[1])
@@ -273,7 +302,13 @@ def impl_main(payload):
             for p in pts:
                 try:
                     v = complex(f(*p))
-                    ref.append(v.real if abs(v.imag) < 1e-300 and math.isfinite(v.real) else None)
+                    if abs(v.imag) < 1e-300 and math.isfinite(v.real):
+                        # a complex value whose parts underflowed looks real in double precision: ask for 20 digits with
+                        # unbounded exponents before believing that the value is real
+                        hv = sp.N(e.subs({X0: float(p[0]), X1: float(p[1])}), 20)
+                        ref.append(v.real if hv.is_real else None)
+                    else:
+                        ref.append(None)
                 except TO:
                     raise
                 except Exception:  # noqa
